@@ -1,8 +1,9 @@
-From DB Require Import Base.Bytes Model.LogStoreSpec Model.KV Model.LogDBPlain Model.TanIndex.
+From DB Require Import Base.Bytes Model.LogStoreSpec Model.KV Model.LogDBPlain Model.LogDBBatched Model.TanIndex.
 Require Extraction.
 Require Import ExtrOcamlBasic.
 Extraction Language OCaml.
 Extraction "../ocaml/c09/model.ml" util_add util_mul util_divmod
   spec_init spec_wf_op spec_step spec_wf_query spec_answer c09_z_succ
   pdb_init plain_step plain_query canon
-  index_update index_query.
+  index_update index_query
+  batched_step batched_query.
